@@ -2,5 +2,5 @@
 #include "momo/TreeSet.h"
 namespace momo {
 typedef TreeSet<int, TreeTraits<int, false, TreeNode<32, 4, MemPoolParams<8>, true>, true>> InstSetR;
-void c02_inst_use_r() { InstSetR s, d; for (int i = 0; i < 100; ++i) s.Insert(i); s.MergeTo(d); d.MergeTo(s); while (!s.IsEmpty()) s.Remove(s.GetBegin()); }
+void c02_inst_use_r() { InstSetR s, d; { auto it = s.GetBegin(); ++it; --it; (void)s.GetLowerBound(1); } for (int i = 0; i < 100; ++i) s.Insert(i); s.MergeTo(d); d.MergeTo(s); while (!s.IsEmpty()) s.Remove(s.GetBegin()); }
 }
